@@ -124,7 +124,23 @@ def loss_case(rng):
     return "(sim (global 65000 1.1.1.1) (peers (a 10.0.0.1 65001) (b 10.0.0.2 65002) (c 10.0.0.3 65003)) (steps %s))" % " ".join(steps)
 
 
-def run_chunk(binary, lines, timeout=240):
+def limit_case(rng):
+    """sync: a peer exceeds its prefix limit (the session is shut down by the server itself, from the goroutine that
+    handles the UPDATE); management calls and the other peer must keep working afterwards"""
+    lim = rng.choice([1, 2, 3])
+    steps = ["(up a)", "(up b)"]
+    for i in range(lim + rng.choice([1, 2, 4])):
+        steps.append("(upd b (a 10.%d.0.0/24 0 (65002) - - 0 () - ()))" % (i + 1))
+        if rng.random() < 0.4:
+            steps.append("(upd a (a 10.%d.0.0/24 0 (65001) - - 0 () - ()))" % (20 + i))
+    steps.append("(obs)")
+    for _ in range(rng.choice([1, 2, 3])):
+        steps.append(rng.choice(["(softout a)", "(softin all)", "(disable b)", "(enable b)", "(upd a (a 10.30.0.0/24 0 (65001) - - 0 () - ()))", "(reset a)", "(obs)"]))
+    steps += ["(delpeer b)", "(obs)"]
+    return "(sim (global 65000 1.1.1.1 sync) (peers (a 10.0.0.1 65001) (b 10.0.0.2 65002 maxprefix=%d)) (steps %s))" % (lim, " ".join(steps))
+
+
+def run_chunk(binary, lines, timeout=90):
     try:
         p = subprocess.run([binary] + ARGS, input="\n".join(lines) + "\n", stdout=subprocess.PIPE, stderr=subprocess.PIPE, text=True,
                            timeout=timeout, errors="replace", env=core.goenv())
@@ -137,7 +153,7 @@ def run_chunk(binary, lines, timeout=240):
 def classify(line, out):
     """one scenario's output -> None | (key, message)"""
     if out is None:
-        return ("hang-or-abort", "the scenario produced no result within 60 s (the process hung or died)")
+        return ("hang-or-abort", "the scenario produced no result within 20 s of real time (a call never returned, or the process died)")
     body = out[4:]
     if body.startswith("panic"):
         if "deadlock" in body or "blocked" in body:
@@ -173,6 +189,7 @@ def run(ctx):
     lines += [("management-storm", storm_case(rng)) for _ in range(n)]
     lines += [("session-loss-under-traffic", loss_case(rng)) for _ in range(n)]
     lines += [("peer-lifecycle", lifecycle_case(rng)) for _ in range(n // 2)]
+    lines += [("prefix-limit", limit_case(rng)) for _ in range(n // 4)]
     found = {}
     races = 0
     results = 0
@@ -190,13 +207,15 @@ def run(ctx):
                     if "hang-or-abort" in found or "data-race" in found:
                         continue
                     for i in idx:
-                        o, e, r = run_chunk(binary, [lines[i][1]], timeout=60)
+                        o, e, r = run_chunk(binary, [lines[i][1]], timeout=20)
                         res = classify(lines[i][1], o[0] if o else None)
                         if "DATA RACE" in e:
                             res = ("data-race", e[e.index("WARNING: DATA RACE"):][:1500])
                         results += 1
                         if res and res[0] not in found:
                             found[res[0]] = (lines[i], res[1])
+                        if res and res[0] == "hang-or-abort":
+                            break
                     continue
                 results += len(outs)
                 for i, o in zip(idx, outs):
